@@ -307,6 +307,8 @@ class Runner:
                 verdict = "violation"
             elif s["inconclusive"] or s["unexplored"]:
                 verdict = "inconclusive-in-part"
+            elif s["ok"] == 0 and s["cut"] and all(w.startswith(("the representation differs", "proof device")) for w in s.get("why", {})):
+                verdict = "argument-not-applicable"  # an inductive step whose representation invariant does not fit the current code: no claim, no alarm
             elif s["ok"] == 0:
                 verdict = "vacuous"
             else:
